@@ -162,6 +162,24 @@ class RegExp:
             self._poll_interval,
         )
 
+    def _start_position(self, string: str) -> Optional[int]:
+        """lastIndex as a start position (ToLength), None if beyond the subject.
+
+        Scripts can assign anything to lastIndex: negative and fractional
+        values are normalised, and a position past the end of the subject
+        fails the match (ES: "if lastIndex > length, set lastIndex to 0 and
+        return null") instead of indexing outside the string.
+        """
+        try:
+            index = int(self.lastIndex)
+        except (TypeError, ValueError, OverflowError):
+            index = 0
+        if index < 0:
+            index = 0
+        if index > len(string):
+            return None
+        return index
+
     def test(self, string: str) -> bool:
         """
         Test if the pattern matches the string.
@@ -173,6 +191,13 @@ class RegExp:
             True if there's a match, False otherwise
         """
         vm = self._create_vm()
+
+        if self._global or self._sticky:
+            start = self._start_position(string)
+            if start is None:
+                self.lastIndex = 0
+                return False
+            self.lastIndex = start
 
         if self._sticky:
             result = vm.match(string, self.lastIndex)
@@ -209,6 +234,13 @@ class RegExp:
             Match array or None if no match
         """
         vm = self._create_vm()
+
+        if self._global or self._sticky:
+            start = self._start_position(string)
+            if start is None:
+                self.lastIndex = 0
+                return None
+            self.lastIndex = start
 
         # In unicode mode, lastIndex is a UTF-16 index
         # Convert to code point index for internal matching
